@@ -463,6 +463,32 @@ def run(ck):
         cid = "c%d" % i
         cs.append((cid, gen_client(rng, p2, rng.range(20, 90))))
         meta[cid] = p2
+    # directed: several I-frames sent at different times inside one t1 window and never acknowledged -- the connection must end t1
+    # after the OLDEST of them (client: application sends; server: events), not after the newest
+    for i in range(30 if quick else 400):
+        p = params(rng, quick)
+        p["k"] = max(p["k"], 8)
+        if p["t3"] <= p["t1"]:
+            p["t3"] = p["t1"] + 5            # keep TESTFR out of the picture
+        t1 = p["t1"] * 1000
+        gaps = sorted(rng.range(1, max(2, t1 - 2)) for _ in range(rng.range(1, 3)))
+        hdr = ["cfg k=%d w=%d t1=%d t2=%d t3=%d" % (p["k"], p["w"], p["t1"], p["t2"], p["t3"])]
+        cl = hdr + ["connect", "startdt", "step", "rx " + apci.STARTDT_CON.hex(), "step"]
+        sl = hdr + ["start", "connect c0 10.0.0.1:1000", "tick", "rx c0 " + apci.STARTDT_ACT.hex(), "tick"]
+        t, n_ = 0, 0
+        for g in [0] + gaps:
+            if g > t:
+                cl += ["adv %d" % (g - t), "step"]; sl += ["adv %d" % (g - t), "tick"]
+                t = g
+            n_ += 1
+            cl += ["send " + apci.asdu(45, 6, 1, bytes([n_, 0, 0, 1])).hex(), "step"]
+            sl += ["enq " + c07.ev_asdu(n_).hex(), "tick"]
+        for g in (t1 - 1, t1, t1 + 1, t1 + 1000, t1 + gaps[-1] - 1, t1 + gaps[-1] + 1):
+            if g > t:
+                cl += ["adv %d" % (g - t), "step"]; sl += ["adv %d" % (g - t), "tick"]
+                t = g
+        cs.append(("ct1_%d" % i, cl)); meta["ct1_%d" % i] = p
+        ss.append(("st1_%d" % i, sl)); meta["st1_%d" % i] = p
     rs = runner.run_batch(hsrv, ss, timeout=3600)
     rc = runner.run_batch(hcli, cs, timeout=3600)
     rm = runner.run_batch(m, ss, timeout=3600) if m else {}
